@@ -44,7 +44,8 @@ def gen_history(rng: Rng, tier: str, kmax=3, allow_fixture=True, allow_real_sour
     k = r.wpick([(3, 1), (4, 2), (2, 3)]) if base is None else r.wpick([(5, 1), (2, 2)])
     k = min(k, kmax)
     maxlen = maxlen or (70000 if r.chance(0.15) else 2500)
-    used = []
+    # names are pairwise distinct over the whole history, the base archive's members included
+    used = [m["name"] for m in base["ref"]["members"]] if base is not None and "ref" in base else []
     sessions = []
     for j in range(k):
         mode = "a" if (j > 0 or base is not None) else "w"
